@@ -137,6 +137,24 @@ impl C16 {
             union_nodes(t, &mut unions);
         }
         unions.truncate(6);
+        // aliases that name a union are unions too: `---@alias A string|integer`, `---@alias A` + `---| "a"` lines
+        for (i, a) in w.aliases.iter().enumerate() {
+            let members: Vec<Ty> = match a {
+                dt::AliasDecl::Plain(Ty::Union(ms)) => ms.clone(),
+                dt::AliasDecl::Plain(Ty::Opt(x)) => vec![(**x).clone(), Ty::Prim(4)],
+                dt::AliasDecl::Lines(ms) => ms.clone(),
+                _ => continue,
+            };
+            // alias bodies may mention earlier aliases only (see World::prelude)
+            let members: Vec<Ty> = members
+                .iter()
+                .map(|m| dt::map_ty(m, &|x| match x {
+                    Ty::Alias(r) => Some(if i == 0 { Ty::Prim(0) } else { Ty::Alias((*r as usize % i) as u8) }),
+                    _ => None,
+                }))
+                .collect();
+            unions.push((Ty::Alias(i as u8), members));
+        }
         let nclasses = w.classes.len();
         let class_texts: Vec<String> = (0..nclasses).map(|i| w.class_name(i as u8)).collect();
         let mut texts: Vec<String> = vec!["any".into(), "unknown".into()];
@@ -167,7 +185,10 @@ impl C16 {
             Ok(x) => x,
             Err(_) => return Verdict::Skip("excluded.gen-not-materialised".into()),
         };
-        if !tyws::syntax_errors(&ws, f1).is_empty() {
+        if let Some(e) = tyws::syntax_errors(&ws, f1).first() {
+            if std::env::var("VERIF_DEBUG").is_ok() {
+                eprintln!("GEN-SYNTAX {e} :: {:?}", texts);
+            }
             return Verdict::Skip("excluded.gen-syntax-error".into());
         }
         let (_, tys2) = match tyws::materialise(&mut ws, "t2.lua", &type_texts) {
@@ -178,6 +199,10 @@ impl C16 {
         let unknown = tys[1].clone();
         if !matches!(any, LuaType::Any) || !matches!(unknown, LuaType::Unknown) {
             return Verdict::fail("harness:any-unknown", format!("`any`/`unknown` materialised as {any:?}/{unknown:?}"));
+        }
+        // harness self-check: the oracle is not vacuous
+        if accepts(&ws, &LuaType::String, &LuaType::Integer) || accepts(&ws, &LuaType::Nil, &LuaType::String) {
+            return Verdict::fail("harness:accepts-everything", "check_type accepts integer where string is expected");
         }
         let mut dpairs: Vec<Pair> = vec![];
 
@@ -296,16 +321,10 @@ impl C16 {
             }
             let ma = tyws::union_members_multiset(db, &all);
             let mf = tyws::union_members_multiset(db, &fold);
-            if ma != mf {
-                obs.class("batch:duplicates-differ");
-                // which member is duplicated in one result only
-                let dup = ma.iter().find(|x| ma.iter().filter(|y| y == x).count() != mf.iter().filter(|y| y == x).count()).cloned().unwrap_or_default();
-                let head: String = dup.chars().take_while(|c| c.is_alphanumeric()).collect();
-                return Verdict::fail(
-                    format!("batch-dup:{head}"),
-                    format!("union_all({:?}) has members {:?} but unioning one at a time gives {:?} (same set, different multiplicity)", btexts, ma, mf),
-                );
-            }
+            // Multiplicities are not compared: `LuaType::from_vec` removes duplicates through a HashSet whose Hash for
+            // object/generic/table members is the Arc pointer, so whether two structurally equal members collapse varies
+            // from call to call (observed: the same fold evaluated twice gives 3 resp. 5 copies of `G0<E0>`).
+            obs.class_if(ma != mf, "batch:duplicate-multiplicity-differs");
             obs.class_if(matches!(all, LuaType::Union(_)), "batch:result-union");
         }
 
